@@ -360,12 +360,16 @@ fn c12_run(cfg: &Config) -> PropRun {
     let dd = if cfg.tier == Tier::Quick { 1 } else { 2 };
     let seq = programs(dd, false);
     let n = seq.len() as u64;
+    // joined by every kind of blank the lexer knows, not only ' ' (and by nothing at all)
+    const SEPS: &[&str] = &[" ", "", "\n", "\r\n", "\t", "\u{c}", "\u{a0}", "\u{2028}", "\u{85}", " /*c*/ "];
+    let ns = SEPS.len() as u64;
     let seq_report = ex.run_list(
-        &format!("G.sequences(2 programs of depth<={dd})"),
-        n * n,
+        &format!("G.sequences(2 programs of depth<={dd} x {ns} separators)"),
+        n * n * ns,
         |i, buf| {
+            let (sep, i) = (SEPS[(i % ns) as usize], i / ns);
             buf.push_str(&seq[(i / n) as usize]);
-            buf.push(' ');
+            buf.push_str(sep);
             buf.push_str(&seq[(i % n) as usize]);
         },
         |local, input, _| {
@@ -432,7 +436,7 @@ fn c12_run(cfg: &Config) -> PropRun {
     report.distinct_nontrivial = ex.distinct_nontrivial.load(std::sync::atomic::Ordering::Relaxed);
     PropRun {
         report,
-        rule: format!("every derivation chain of the construct grammar G ({} contexts, 9 hole types) of depth <= {} with every gap filler of {{none, blank, blank+comment+newline, two adjacent comments, comment+blank, a run of 66 hidden tokens}}, and of depth <= {d} with one of these fillers per chain (rotating over the chain index); every ordered pair of programs of depth <= {dd}; one well-formed instance of every macro statement keyword and every argument-taking built-in function inside every statement context of depth <= 2 with every filler; non-trivial = mode stack depth >= 6 reached; states/transitions = end configurations at the token boundaries of every {trace_every}th program", CONTEXTS.len(), d - 1),
+        rule: format!("every derivation chain of the construct grammar G ({} contexts, 9 hole types) of depth <= {} with every gap filler of {{none, blank, blank+comment+newline, two adjacent comments, comment+blank, a run of 66 hidden tokens}}, and of depth <= {d} with one of these fillers per chain (rotating over the chain index); every ordered pair of programs of depth <= {dd} joined by each of 10 separators (blank, nothing, LF, CRLF, TAB, FF, NBSP, U+2028, NEL, commented blank); one well-formed instance of every macro statement keyword and every argument-taking built-in function inside every statement context of depth <= 2 with every filler; non-trivial = mode stack depth >= 6 reached; states/transitions = end configurations at the token boundaries of every {trace_every}th program", CONTEXTS.len(), d - 1),
         oracle: "no error at all; end-of-input configuration = ([Default], nesting 0, pending [false], no checkpoint)".into(),
     }
 }
